@@ -311,7 +311,7 @@ func main() {
 		fqlast.Member(fqlast.Arr(fqlast.Int(1), fqlast.Int(2)), fqlast.Seg{Expr: fqlast.Int(-1)}),
 		fqlast.Member(fqlast.Param("s"), fqlast.Seg{Expr: fqlast.Int(5)}),
 		fqlast.Member(fqlast.Param("arr"), fqlast.Seg{Expr: fqlast.Int(-2)}),
-		fqlast.Call("PANIC_S"), fqlast.Call("PANIC_E"), fqlast.Call("PANIC_O"), fqlast.Call("PANIC_N"), fqlast.Call("FAIL"),
+		fqlast.Call("PANIC_S"), fqlast.Call("PANIC_E"), fqlast.Call("PANIC_O"), fqlast.Call("PANIC_N"), fqlast.Call("PANIC_C"), fqlast.Call("FAIL"),
 		fqlast.Math("%", fqlast.Float(2.5), fqlast.Float(0.5)),
 		fqlast.Member(fqlast.Arr(), fqlast.Seg{Expr: fqlast.Int(0)}),
 		fqlast.Math("/", fqlast.Float(1.5), fqlast.Float(0.0)),
